@@ -237,13 +237,28 @@ Definition tx_proc (p : packet) : bool :=
   | _ => true
   end.
 
-Inductive rexp := RNone | RDue (l : list packet).
+(* RInit: no packet received yet on this Client; RConn: an accepted CONNACK was the first packet, the
+   listing is due; RDue l: l still has to be re-sent.  RConn and RDue are the re-send window. *)
+Inductive rexp := RInit | RNone | RConn | RDue (l : list packet).
 
 Definition rdue (l : list packet) : rexp := match l with [] => RNone | _ => RDue l end.
 
+(* Send calls of API requests *)
+Definition api_send (p : packet) : bool :=
+  match p with
+  | Publish false _ _ | Subscribe _ _ | Unsubscribe _ _ | Disconnect => true
+  | _ => false
+  end.
+
+Definition in_window (x : rexp) : bool := match x with RConn | RDue _ => true | _ => false end.
+
+(* after an accepted CONNACK: the listing, then exactly the listed packets in order (DUP set on PUBLISH),
+   and — clause resend_before_new — until the last of them has been handed to the connection no request
+   of an API call is sent and none is saved into the outgoing store (so nothing can be listed that was
+   saved after the CONNACK, and nothing new overtakes a retransmission) *)
 Definition resend_step (x : rexp) (e : event) : option rexp :=
   match e with
-  | ENew _ => Some RNone
+  | ENew _ => Some RInit
   | ETx p a r =>
     if tx_proc p then
       match x with
@@ -251,16 +266,23 @@ Definition resend_step (x : rexp) (e : event) : option rexp :=
         if a && packet_eqb p (set_dup q)
         then Some (match r with Ok => rdue rest | Fail => RNone end)
         else None
+      | RConn => None
       | _ => Some RNone
       end
+    else if api_send p then (if in_window x then None else Some x)
     else Some x
   | _ =>
     if proc_obs e then
       match x with
       | RDue (_ :: _) => None
+      | RInit => match e with ERx (Connack _ rc) => Some (if rc =? 0 then RConn else RNone) | _ => Some RNone end
       | _ => match e with EAll Outgoing (Some l) => Some (rdue l) | _ => Some RNone end
       end
-    else Some x
+    else
+      match e with
+      | ESave Outgoing _ _ => if in_window x then None else Some x      (* an API call saving its request *)
+      | _ => Some x
+      end
   end.
 
 Fixpoint scan_resend (x : rexp) (es : list event) : option rexp :=
